@@ -34,6 +34,7 @@ OWNERS = {
     "bitmap.Get": ["C12"], "bitmap.Get1": ["C12"], "bitmap.SafeGet": ["C12"], "bitmap.SafeGet1": ["C12"],
     "bitmap.Getw": ["C14"], "bitmap.Rank64": ["C01"], "bitmap.Rank128": ["C01"],
     "bitstr.Len": ["C09"],
+    "bitmap.FromStr32": ["C11"], "bmtree.PathOf": ["C11"],
     "iohelper.SectionWriter.Seek": ["C18"], "iohelper.SectionWriter.Size": ["C18"],
     # listed to document the bail-out (loops): unsupported in the baseline as well
     "bmtree.shiftMulti": ["C03"], "bmtree.IndexToPath": ["C05"], "bitmap.IndexRank64": ["C01"],
